@@ -1334,6 +1334,8 @@ class Interp(object):
             seq = self.eval(g.iter, fr)
             if isinstance(seq, (SV, PatStr)):
                 raise Unsupported('comprehension over symbolic iterable (only supported directly under sum())')
+            if not isinstance(seq, (list, tuple, set, frozenset, dict, range, str)) and not hasattr(seq, '__iter__'):
+                raise Unsupported(f'comprehension over an abstract collection ({type(seq).__name__}, line {e.lineno})')
             for x in list(seq):
                 fr2 = Frame({}, fr.fn, fr)
                 self.assign(g.target, x, fr2)
